@@ -214,6 +214,11 @@ class RefSolver(object):
                 self.produce_models = isinstance(val, Sym) and val.name == "true"
             elif opt == ":global-declarations":
                 raise Unsupported()
+            elif opt == ":only-member":
+                # an option that only one particular solver of a portfolio understands
+                if str(getattr(val, "name", val)) != str(self.profile.get("member_tag")):
+                    self.faults_fired["foreign_option"] = self.faults_fired.get("foreign_option", 0) + 1
+                    raise Unsupported()
             return self._ok()
         if name == "set-info":
             return self._ok()
@@ -304,10 +309,15 @@ class RefSolver(object):
             if not self.produce_models:
                 raise Illegal("get-value without :produce-models")
             out = []
+            pretty = self.profile.get("value_layout", "one-line") == "pretty"
             for t in sx[1]:
                 sort, fn = self._compile(t, {})
                 v = fn(self.model, {})
-                out.append("(%s %s)" % (show(t), self._value(v, sort)))
+                out.append(("(%s\n   %s)" if pretty else "(%s %s)") % (show(t), self._value(v, sort)))
+            if pretty:
+                # like z3 / cvc5 for long terms: the reply spans several lines
+                self.faults_fired["multiline_reply"] = self.faults_fired.get("multiline_reply", 0) + 1
+                return "(" + "\n ".join(out) + ")"
             return "(" + " ".join(out) + ")"
         if name == "get-model":
             if self.mode != "sat":
@@ -339,6 +349,12 @@ class RefSolver(object):
             return list(range(1 << sort[1]))
         if sort[0] == "S":
             return list(range(self.usort_card))
+        if sort[0] == "Array":
+            di, de = self._domain(sort[1]), self._domain(sort[2])
+            if di is None or de is None or len(de) ** len(di) > 256:
+                return None
+            # the tuple of the elements, indexed by int(index value)
+            return list(itertools.product(de, repeat=len(di)))
         return None
 
     def _check_sat(self):
@@ -420,6 +436,8 @@ class RefSolver(object):
         if isinstance(sx, list) and len(sx) == 3 and sx[0] == Sym("_") and sx[1] == Sym("BitVec") \
                 and isinstance(sx[2], Num) and sx[2].value > 0:
             return BVS(sx[2].value)
+        if isinstance(sx, list) and len(sx) == 3 and sx[0] == Sym("Array"):
+            return ("Array", self._sort(sx[1]), self._sort(sx[2]))
         raise Illegal("unknown sort %s" % show(sx))
 
     def _sort_str(self, s):
@@ -429,6 +447,8 @@ class RefSolver(object):
             return "Int"
         if s[0] == "BV":
             return "(_ BitVec %d)" % s[1]
+        if s[0] == "Array":
+            return "(Array %s %s)" % (self._sort_str(s[1]), self._sort_str(s[2]))
         return repr(Sym(s[1], not _simple(s[1])))
 
     def _value(self, v, sort):
@@ -438,6 +458,13 @@ class RefSolver(object):
             return str(v) if v >= 0 else "(- %d)" % (-v)
         if sort[0] == "BV":
             return "#b" + format(v, "0%db" % sort[1])
+        if sort[0] == "Array":
+            di = self._domain(sort[1])
+            out = "((as const %s) %s)" % (self._sort_str(sort), self._value(v[0], sort[2]))
+            for pos in range(1, len(v)):
+                if v[pos] != v[0]:
+                    out = "(store %s %s %s)" % (out, self._value(di[pos], sort[1]), self._value(v[pos], sort[2]))
+            return out
         return "(as @%s_%d %s)" % (sort[1], v, self._sort_str(sort))
 
     # ------------------------------------------------------------ term compiler
@@ -580,6 +607,20 @@ class RefSolver(object):
             if not cond:
                 raise Illegal("%s: %s (argument sorts %s)" % (op, msg, sorts))
 
+        if op == "select":
+            need(n == 2 and sorts[0][0] == "Array" and sorts[1] == sorts[0][1], "expects an array and an index of its index sort")
+            fa, fi = fs
+            return sorts[0][2], (lambda m, l: fa(m, l)[int(fi(m, l))])
+        if op == "store":
+            need(n == 3 and sorts[0][0] == "Array" and sorts[1] == sorts[0][1] and sorts[2] == sorts[0][2],
+                 "expects an array, an index and an element of its sorts")
+            fa, fi, fv = fs
+
+            def st(m, l):
+                a = list(fa(m, l))
+                a[int(fi(m, l))] = fv(m, l)
+                return tuple(a)
+            return sorts[0], st
         if op == "not":
             need(n == 1 and sorts[0] == BOOL, "expects one Bool")
             f = fs[0]
